@@ -126,7 +126,7 @@ def new_agg():
             "violations": [], "steps": 0, "switches": 0, "preemptions": 0, "sync_events": 0,
             "probes": {}, "faults": {}, "signatures": set(), "nontrivial_runs": 0, "samples": [],
             "rechecked": 0, "nondeterministic": [], "skips": {}, "strategies": {}, "stalls_seen": 0,
-            "max_live": 0, "digest_xor": 0}
+            "max_live": 0, "digest_xor": 0, "abstract_states": set()}
 
 
 def fold(agg, res):
@@ -171,6 +171,9 @@ def fold(agg, res):
     d = res.get("digest")
     if d:
         agg["digest_xor"] ^= int(d[:16], 16)
+    ab = res.get("abstract_states")
+    if ab:
+        agg["abstract_states"].update(ab)
     if len(agg["samples"]) < 2 and res.get("nontrivial"):
         agg["samples"].append({"seed": res["seed"], "plan": res.get("plan"), "verdict": v,
                                "steps": res.get("steps"), "preemptions": res.get("preemptions"),
@@ -189,6 +192,7 @@ def merge(a, b):
         for kk, n in b[k].items():
             a[k][kk] = a[k].get(kk, 0) + n
     a["signatures"] |= b["signatures"]
+    a["abstract_states"] |= b["abstract_states"]
     if len(a["violations"]) < 200:
         a["violations"].extend(b["violations"])
     if len(a["samples"]) < 4:
@@ -530,6 +534,9 @@ def write_evidence(spec, tier, base_seed, total, wall, reported, stopped_early, 
             "preemptions": total["preemptions"],
             "sync_events": total["sync_events"],
             "max_concurrently_runnable_tasks": total["max_live"],
+            "distinct_abstract_states": len(total["abstract_states"]),
+            "abstract_state_rule": "CRC32 of (operation kind, per live task (role, what it waits on), queue lengths capped at 3, "
+                                   "lock / event flags) taken at every synchronisation event; engine A only (0 for engines B and C)",
             "fault_kinds_fired": total["faults"],
             "probes": total["probes"],
             "probes_at_zero": [p for p in getattr(spec, "PROBES", []) if total["probes"].get(p, 0) == 0],
